@@ -16,6 +16,7 @@ Definition rx_pc (p : ppc) (rx : list packet) : Prop :=
   | PAckDel q | PAckFut q => (exists rest, rx = q :: rest) /\ is_ackp q = true
   | PConnack sp rc => exists rest, rx = Connack sp rc :: rest
   | PRecSave id => exists rest, rx = Pubrec id :: rest
+  | PAll sp | PResend sp _ | PConnDone sp _ => exists rest, rx = Connack sp 0 :: rest
   | _ => True
   end.
 
@@ -33,6 +34,8 @@ Proof.
   all: cbn [rx_pc is_ackp] in *.
   all: try solve [first [exact I | assumption | eexists; reflexivity | split; [eexists; reflexivity|reflexivity]]].
   all: try solve [specialize (O2 _ eq_refl); destruct after; cbn [after_pc] in O2; try contradiction; exact I].
+  all: try solve [match goal with E : negb (?rc =? 0) = false |- _ =>
+         apply negb_false_iff in E; apply N.eqb_eq in E; subst rc; assumption end].
 Qed.
 
 Definition InvE (s : st) : Prop := InvD s /\ InvRx s.
@@ -54,17 +57,22 @@ Qed.
 (* ---- C09_resend_on_connect: pure control flow *)
 Theorem resend_on_connect : C09_resend_on_connect_statement.
 Proof.
-  intros es s Hr. split; [|split].
+  intros es s Hr. split; [|split; [|split]].
   - intros sp rc s' Hpc H Hcs ->.
     cbv beta iota zeta delta [step proc_hidden] in H. rewrite Hpc, Hcs in H. cbn in H.
-    injection H as <-. destruct (t_connfut (t (set_cs s StConnected))); simp_proj; reflexivity.
-  - intros e s' Hpc Hproc H.
+    injection H as <-. simp_proj. split; reflexivity.
+  - intros sp e s' Hpc Hproc H.
     moves e Hpc Hproc H.
     + eexists. split; [reflexivity|]. intros l0 Hl. injection Hl as <-.
       apply list_packet_eqb_eq in E1. subst. injection H as <-. split; [reflexivity|]. reflexivity.
     + eexists. split; [reflexivity|]. intros l0 Hl. discriminate Hl.
-  - intros q rest e s' Hpc Hproc H.
+  - intros sp q rest e s' Hpc Hproc H.
     moves e Hpc Hproc H.
     all: try match goal with E : _ = set_dup _ |- _ => rewrite E in * end.
     all: try (injection H as <-); eexists; (split; [reflexivity|]); intros Hr'; try discriminate Hr'; simp_proj; reflexivity.
+  - intros sp s' Hpc H.
+    cbv beta iota zeta delta [step proc_hidden] in H. rewrite Hpc in H.
+    injection H as <-. split.
+    + simp_proj. reflexivity.
+    + intros Hcs. rewrite Hcs. cbn. destruct (t_connfut (t s)); simp_proj; reflexivity.
 Qed.
